@@ -87,7 +87,7 @@ int main(int argc, char **argv)
     }
     if (has_flag(argc, argv, "--selfcheck"))
     {
-        printf("SELFCHECK ok flavour=%s avx512_build=%d\n", sim::g_asan_flavour ? "asan" : "tsh", (int)0);
+        printf("SELFCHECK ok flavour=%s per_member_tls=%d\n", sim::g_asan_flavour ? "coarse" : "tsh", (int)sim::member_tls_enabled());
         return 0;
     }
 #ifndef SIM_ASAN
